@@ -166,6 +166,95 @@ func runFirstCmd(c *harness.Ctx) harness.Result {
 	return res
 }
 
+// part order: the same option values reached by assignments in two different orders (and, in one
+// session, through intermediate values) give the same report: what a command prints depends on the
+// values in effect, not on how they came about.
+func runOrder(c *harness.Ctx) harness.Result {
+	r := c.Rng
+	p := GenProfile(r)
+	var buf bytes.Buffer
+	p.WriteUncompressed(&buf)
+	values := map[string][]string{
+		"sample_index": {"samples", "cpu"}, "mean": {"true", "false"}, "divide_by": {"2", "1", "1000"}, "unit": {"ms", "minimum", "us"}, "focus": {"main", "a|b", ""}, "ignore": {"c", ""}, "hide": {"d|e", ""},
+		"nodecount": {"2", "5", "-1"}, "sort": {"cum", "flat"}, "granularity": {"lines", "files", "functions"}, "relative_percentages": {"true", "false"}, "compact_labels": {"false", "true"}, "call_tree": {"true", "false"}, "noinlines": {"true", "false"}, "trim_path": {"/src", ""},
+	}
+	if p.SampleType[0].Type != "samples" {
+		values["sample_index"] = []string{p.SampleType[0].Type, p.SampleType[1].Type}
+	}
+	var keys []string
+	for k := range values {
+		keys = append(keys, k)
+	}
+	sort.Strings(keys)
+	r.Shuffle(len(keys), func(i, j int) { keys[i], keys[j] = keys[j], keys[i] })
+	keys = keys[:2+r.Intn(4)]
+	if r.Intn(2) == 0 {
+		// the legend lines are part of what is compared, and they depend on the sample type, the
+		// mean option and the units
+		keys = append(keys, "compact_labels")
+		for _, k := range []string{"sample_index", []string{"mean", "divide_by", "unit"}[r.Intn(3)]} {
+			has := false
+			for _, x := range keys {
+				has = has || x == k
+			}
+			if !has {
+				keys = append(keys, k)
+			}
+		}
+		r.Shuffle(len(keys), func(i, j int) { keys[i], keys[j] = keys[j], keys[i] })
+	}
+	final := map[string]string{}
+	var a []string
+	for pass := 0; pass < 2; pass++ {
+		for _, k := range keys {
+			if pass == 0 && r.Intn(2) == 0 {
+				continue // some options get an intermediate value first
+			}
+			v := values[k][r.Intn(len(values[k]))]
+			if k == "compact_labels" && pass == 1 {
+				v = "false"
+			}
+			a = append(a, k+"="+v)
+			final[k] = v
+		}
+	}
+	var b []string
+	fk := make([]string, 0, len(final))
+	for k := range final {
+		fk = append(fk, k)
+	}
+	sort.Sort(sort.Reverse(sort.StringSlice(fk)))
+	for _, k := range fk {
+		b = append(b, k+"="+final[k])
+	}
+	cmd := []string{"dot", "top", "tree", "top > t.txt", "peek main", "tags", "traces", "dot", "top", "tree"}[r.Intn(10)]
+	res := harness.Result{NonTrivial: true, Sig: fmt.Sprintf("order %q %s %d", a, cmd, c.Index), Sample: map[string]any{"session A": append(append([]string{}, a...), cmd), "session B": append(append([]string{}, b...), cmd)}}
+	run := func(lines []string, dir string) (string, error) {
+		sr, err := sess.Run(sess.Spec{Profile: buf.Bytes(), Mode: "interactive", Lines: append(append([]string{}, lines...), cmd), Dir: dir}, 2*time.Minute)
+		if err != nil {
+			return "", err
+		}
+		if sr.Panic != "" || len(sr.Segments) < len(lines)+1 {
+			return "", fmt.Errorf("session stopped early: %s", harness.Trunc(sr.Panic, 500))
+		}
+		return normSeg(sr.Segments[len(lines)]), nil
+	}
+	ga, err := run(a, c.Tmp+"/a")
+	if err != nil {
+		return harness.Result{Verdict: harness.Inconclusive, Detail: err.Error()}
+	}
+	gb, err := run(b, c.Tmp+"/b")
+	if err != nil {
+		return harness.Result{Verdict: harness.Inconclusive, Detail: err.Error()}
+	}
+	c.Stat("order_pairs", 1)
+	if ga != gb {
+		res.Verdict = harness.Violated
+		res.Detail = fmt.Sprintf("%q prints something else after the assignments %q than after %q, which leave the same option values in effect\n%s", cmd, a, b, diff(ga, gb))
+	}
+	return res
+}
+
 func runInteractive(c *harness.Ctx) harness.Result {
 	r := c.Rng
 	p := GenProfile(r)
@@ -465,6 +554,7 @@ func init() {
 			{Name: "web", Quick: 500, Thor: 10000, Run: runWeb},
 			{Name: "disasm", Quick: 40, Thor: 1500, Run: runDisasm},
 			{Name: "firstcmd", Quick: 120, Thor: 4000, Run: runFirstCmd},
+			{Name: "order", Quick: 150, Thor: 5000, Run: runOrder},
 		},
 		MinNonTrivial: func(string) int { return 100 },
 		Finish: func(tier string, st map[string]int64) string {
